@@ -10,6 +10,7 @@ mod downloads;
 mod heads;
 mod livesync;
 mod netpair;
+mod nodes;
 mod protect;
 mod query;
 mod replica;
@@ -141,6 +142,11 @@ fn main() {
             let w = World::new(seed, 3, 3);
             let mut rng = Rng::new(seed);
             downloads::run(&w, seed, &mut rng, args.num("n", 20) as usize, &mut trace, &mut sum);
+        }
+        "nodes" => {
+            let w = World::new(seed, 3, 3);
+            let mut rng = Rng::new(seed);
+            nodes::run(&w, seed, &mut rng, args.num("n", 10) as usize, &mut trace, &mut sum);
         }
         "protect" => {
             let w = World::new(seed, 3, 3);
